@@ -294,11 +294,18 @@ class C06:
                 for flag in ((), ("NX",), ("XX",)):
                     for present in (False, True):
                         self.rep.evaluations += 1
-                        c.cmd("DEL", "g")
-                        if present:
-                            c.cmd("SET", "g", "old")
-                        got = c.cmd("SET", "g", "v", unit, str(t), *flag)
-                        self.rep.nontrivial(("set-time", unit, flag, present, got[0]))
+                        cl = ["SET", "g", "v", unit, str(t)] + list(flag)
+                        try:
+                            c.cmd("DEL", "g")
+                            if present:
+                                c.cmd("SET", "g", "old")
+                            got = c.cmd(*cl)
+                            self.rep.nontrivial(("set-time", unit, flag, present, got[0]))
+                        except (Closed, OSError, TimeoutError, ProtocolError):
+                            why = self.alive() or "connection closed without a reply"
+                            self.failures.append({"why": why, "commands": [(["SET", "g", "old"] if present else ["DEL", "g"]), cl], "name": "time-grid", "raw": []})
+                            self.restart()
+                            c = self.srv.client(timeout=5.0)
             for cmdline in (["SETEX", "g", str(t), "v"], ["PSETEX", "g", str(t), "v"], ["EXPIRE", "g", str(t)], ["PEXPIRE", "g", str(t)], ["GETEX", "g", "EX", str(t)],
                             ["EXPIREAT", "g", str(t)], ["PEXPIREAT", "g", str(t)], ["BLPOP", "g:none", str(t)], ["BRPOP", "g:none", str(t)]):
                 self.rep.evaluations += 1
